@@ -1248,7 +1248,17 @@ namespace ipr {
       }
 
       void visit(const Type& t) final { pp << xpr_type(t); }
-      void visit(const Expr& e) final { pp << xpr_assignment_expression(e); }
+      void visit(const Expr& e) final
+      {
+         // Print as an assignment-expression.  A node that no production of the expression
+         // grammar accepts is an error here: parenthesizing it and starting over cannot help.
+         struct Full_expr : xpr::Assignment_expr {
+            using xpr::Assignment_expr::Assignment_expr;
+            void visit(const Expr& x) final { Missing_overrider{ }(x); }
+         };
+         Full_expr impl { pp };
+         e.accept(impl);
+      }
       void visit(const Stmt& s) final { pp << xpr_stmt(s); }
       void visit(const Decl& d) final
       {
